@@ -22,7 +22,7 @@ import itertools
 from xfabsa import core, numeric as N
 from xfabsa.core import AnalysisError
 from xfabsa.poly import Rat, func_atom, single_atom, POSITIVE_SCALE_ATOMS
-from xfabsa.symeval import Evaluator, sym_array, Arr, Opaque, scalar, materialise, const_int, _Break, _Continue, RaiseReached
+from xfabsa.symeval import Evaluator, sym_array, Arr, Opaque, scalar, materialise, const_int, _Break, _Continue, _Return, RaiseReached
 from xfabsa.objeval import ObjEvaluator
 
 
@@ -49,11 +49,13 @@ class Perm:
 
 
 class SortedTable:
-    """rows of `source` reordered so that column `col` ascends; entries of row r are the atoms S[r,c]"""
+    """rows of `source` reordered so that `keys` ascend (keys[r] belongs to source row r; `col` is the column of the table
+    the keys are, or None when they are a separate vector); entries of row r are the atoms S[r,c]"""
 
-    def __init__(self, source, col):
+    def __init__(self, source, col, keys=None):
         self.source = source          # list of rows (lists of Rat)
         self.col = col
+        self.keys = keys if keys is not None else [r[col] for r in source]
         self.n = len(source)
         self.width = len(source[0]) if source else 0
 
@@ -154,16 +156,18 @@ class ReduceEval(ObjEvaluator):
                 if any(not (isinstance(e, ast.Slice) and e.lower is None and e.upper is None and e.step is None) for e in rest):
                     raise AnalysisError("reduce_cell: permuted table indexed with something else than full slices (line %d)" % node.lineno)
                 rows = [[scalar(x) for x in r] for r in base.data]
-                cols = [c for c in range(len(rows[0])) if len(first.keys) == len(rows) and all(k.equals(r[c]) for k, r in zip(first.keys, rows))]
-                if not cols:
-                    raise AnalysisError("reduce_cell: the table is reordered by argsort of something that is not one of its columns (line %d)"
-                                        % node.lineno)
-                self.table = SortedTable(rows, cols[-1])
+                if len(first.keys) != len(rows):
+                    raise AnalysisError("reduce_cell: the table is reordered by a permutation of another length (line %d)" % node.lineno)
+                cols = [c for c in range(len(rows[0])) if all(k.equals(r[c]) for k, r in zip(first.keys, rows))]
+                self.table = SortedTable(rows, cols[-1] if cols else None, list(first.keys))
                 self.phase = "picking"
                 return self.table
         if isinstance(base, SortedTable):
             if not elts:
                 raise AnalysisError("reduce_cell: empty subscript")
+            if len(elts) == 1 and isinstance(elts[0], ast.Slice) and elts[0].upper is None and elts[0].step is None:
+                lo = self.eval(elts[0].lower, env) if elts[0].lower is not None else Rat.const(0)
+                return ("table-rows", base, scalar(lo))
             r = self.eval(elts[0], env)
             ri = const_int(r)
             if ri is None:
@@ -262,23 +266,28 @@ class ReduceEval(ObjEvaluator):
                 start = scalar(it[0])
             if start is not None:
                 return self.summarise_loop(st, env, start)
+            if isinstance(it, tuple) and len(it) == 3 and it[0] == "table-rows":
+                return self.summarise_loop(st, env, it[2], rows_of=it[1])
+            if isinstance(it, SortedTable):
+                return self.summarise_loop(st, env, Rat.const(0), rows_of=it)
             self.hand_down(st.iter, it)
         return ObjEvaluator.exec_stmt(self, st, env)
 
-    def summarise_loop(self, st, env, start):
+    def summarise_loop(self, st, env, start, rows_of=None):
         k = len(self.loops)
         idx = Rat.atom("idx%d*" % k)
         info = {"start": start, "index": idx, "node": st, "broke": False, "trace": None}
+        item = idx if rows_of is None else Arr(rows_of.row("idx%d*" % k))     # the loop variable: an index, or the row itself
         # a non-hit iteration must leave no trace in the arrays that outlive the loop
         probe = {n_: (v.copy() if isinstance(v, Arr) else v) for n_, v in env.items()}
         before = {n_: v.key() for n_, v in probe.items() if isinstance(v, Arr)}
         same_obj = {n_: id(v) for n_, v in probe.items() if isinstance(v, Arr)}
         self.mode = "miss"
         try:
-            self.assign(st.target, idx, probe)
+            self.assign(st.target, item, probe)
             try:
                 self.exec_block(st.body, probe)
-            except (_Break, _Continue):
+            except (_Break, _Continue, _Return):
                 pass
         finally:
             self.mode = None
@@ -289,11 +298,14 @@ class ReduceEval(ObjEvaluator):
         self.mode = "hit"
         self.loops.append(info)
         try:
-            self.assign(st.target, idx, env)
+            self.assign(st.target, item, env)
             try:
                 self.exec_block(st.body, env)
             except _Break:
                 info["broke"] = True
+            except _Return:
+                info["broke"] = True          # leaving the enclosing helper at the hit is the same as break
+                raise
             except _Continue:
                 pass
         finally:
@@ -337,19 +349,35 @@ def run(ctx):
             raise AnalysisError("%s.reduce_cell: no sorted candidate table / no call of a_to_cell was met" % short)
         ctx.check(len(ev.form_calls) >= 1 and all(a[0] is cell for a in ev.form_calls), "C18:vectors:%s.basis" % short,
                   "the lattice basis is not form_a_mat(unit_cell)", where)
-        # ---- table rows
+        # ---- table rows: [i, j, k, |A.(i,j,k)|], or the vectors A.(i,j,k) themselves sorted by their lengths
         rows = ev.table.source
+        vector_table = ev.table.width == 3
         triples, badrow = set(), None
-        for r in rows:
-            ints = [const_int(x) for x in r[:3]]
-            tag = single_atom(r[3]) if len(r) == 4 else None
-            okr = len(r) == 4 and all(i is not None for i in ints)
-            if okr:
-                want = lin(ev.A, [Rat.const(i) for i in ints])
-                if ints == [0, 0, 0]:
-                    okr = r[3].is_zero() or (tag in ev.norm_of and veq(ev.norm_of[tag], want))
-                else:
-                    okr = tag in ev.norm_of and veq(ev.norm_of[tag], want)
+        if vector_table:
+            A_ = [[Rat.atom("A[%d,%d]" % (r_, c_)) for c_ in range(3)] for r_ in range(3)]
+            zero_env = {"A[%d,%d]" % (r_, c_): Rat.const(0) for r_ in range(3) for c_ in range(3)}
+        for ri, r in enumerate(rows):
+            if vector_table:
+                # the integer triple is read off the linear form: coefficient of A[0,c] in component 0
+                ints = []
+                for c_ in range(3):
+                    one = dict(zero_env)
+                    one["A[0,%d]" % c_] = Rat.const(1)
+                    ints.append(const_int(r[0].subs(one)))
+                key = ev.table.keys[ri]
+                tag = single_atom(key)
+                okr = all(i is not None for i in ints) and veq(r, lin(ev.A, [Rat.const(i) for i in ints])) \
+                    and ((tag in ev.norm_of and veq(ev.norm_of[tag], r)) or (ints == [0, 0, 0] and key.is_zero()))
+            else:
+                ints = [const_int(x) for x in r[:3]]
+                tag = single_atom(r[3]) if len(r) == 4 else None
+                okr = len(r) == 4 and all(i is not None for i in ints)
+                if okr:
+                    want = lin(ev.A, [Rat.const(i) for i in ints])
+                    if ints == [0, 0, 0]:
+                        okr = r[3].is_zero() or (tag in ev.norm_of and veq(ev.norm_of[tag], want))
+                    else:
+                        okr = tag in ev.norm_of and veq(ev.norm_of[tag], want)
             if not okr and badrow is None:
                 badrow = [N.short(x, 40) for x in r]
             if okr:
@@ -363,9 +391,13 @@ def run(ctx):
                   "the enumeration does not visit every index triple with |u|,|v|,|w| <= 2 for the default search range: "
                   "dropped %d of 125, e.g. %s" % (len(dropped), dropped[:3]), where,
                   sample={"triples_checked": 125, "dropped": len(dropped), "table_rows": len(rows)})
-        ctx.check(ev.table.col == 3, "C18:vectors:%s.sorted" % short, "the candidate list is not sorted by its length column", where)
+        ctx.check(ev.table.col == 3 if not vector_table else True, "C18:vectors:%s.sorted" % short,
+                  "the candidate list is not sorted by its length column", where)
         # ---- picks
-        v0 = lin(ev.A, ev.table.row(1)[:3])
+
+        def vec_of(r_):
+            return lin(ev.A, ev.table.row(r_)[:3]) if not vector_table else ev.table.row(r_)
+        v0 = vec_of(1)
         loops = ev.loops
         okl = len(loops) == 2 and all(l["broke"] for l in loops) and not any(l["trace"] for l in loops)
         if not okl:
@@ -375,13 +407,13 @@ def run(ctx):
                      % (len(loops), [l["broke"] for l in loops], [l["trace"] for l in loops]), where)
             continue
         i_, j_ = "idx0*", "idx1*"
-        v1 = lin(ev.A, ev.table.row(i_)[:3])
-        v2 = lin(ev.A, ev.table.row(j_)[:3])
+        v1 = vec_of(i_)
+        v2 = vec_of(j_)
         H = ev.handed
         as_rows = all(veq(H[k], v) for k, v in enumerate((v0, v1, v2)))
         as_cols = all(veq([H[r][k] for r in range(3)], v) for k, v in enumerate((v0, v1, v2)))
         first_ok = veq(H[0], v0) or veq([H[r][0] for r in range(3)], v0)
-        zero_first = veq(H[0], lin(ev.A, ev.table.row(0)[:3])) or veq([H[r][0] for r in range(3)], lin(ev.A, ev.table.row(0)[:3]))
+        zero_first = veq(H[0], vec_of(0)) or veq([H[r][0] for r in range(3)], vec_of(0))
         ctx.check(first_ok, "C18:vectors:%s.first" % short,
                   "the first vector is not the shortest non-zero candidate (sorted row 1)%s" % (": it is sorted row 0, the zero vector" if zero_first else ""),
                   where)
